@@ -143,15 +143,16 @@ TEXTS = {
                     'termination under fairness on 3 paths (thorough). The stress workload (three full blocks from the start, growth across blocks, offset reuse, record and string '
                     'merges with user merge functions in several blocks at once, snapshots, '
                     'restores, index builds and drops, keyed upserts, aborted inserting transactions, failing inserts, Ascend, a replica, readers and writers) runs under the race detector with a '
-                    'watchdog; every report and every panic is mapped to a model variable and judged by LocksTrace.tla.',
+                    'watchdog, followed by staged schedules of a commit beside growth of the collection in both orders (growth before the apply, with and without a snapshot; growth after the apply, '
+                    'where only the column lock orders the two); every report and every panic is mapped to a model variable and judged by LocksTrace.tla.',
             'note': 'The race detector explores, the specification classifies: this is the property where the technique contributes least (TLA+ '
                     'cannot observe memory accesses). Trusted: the function table of bin/racemap.py; a report with both sides inside the library on memory '
-                    'the table does not name is a violation (variable "unmapped").',
+                    'the table does not name is a violation (variable "unmapped"), and so is growth against a commit\'s Apply (both hold the column lock in the model; only growth beside point readers is the listed finding).',
             'technique': 'TLA+ lock-protocol model checked with TLC (deadlock, lockset); race-detector exploration of the implementation classified by the model'},
     'C19': {'text': 'The specification computes, per Apply, the trigger calls (per trigger and row, in issue order, final values, one '
                     'per deleted row); the real trigger callbacks recorded between two in-latch logger events must equal them; '
                     'rollbacks must come with no callback. Triggers are created and dropped mid-history (MC_Schema: exhaustively between two '
-                    'transactions), their source column may be dropped (detached trigger: deletions only).',
+                    'transactions), their source column may be dropped (detached trigger: deletions only); in half of the scenarios hidden one-shot triggers, unknown to the specification, drop themselves from inside a commit ahead of the recorded ones.',
             'note': _NOTE, 'technique': _T},
 }
 
